@@ -19,7 +19,7 @@ identical or power-of-two rescaled direction vector) or separated by >= 1e-3 rel
 import math
 import numpy as np
 from mc.core import call, HarnessError
-from mc import alph, ref
+from mc import alph
 
 PROP = 'C19'
 LEVEL = 'exploration'
@@ -725,18 +725,24 @@ def build2(ld, args):
     return call(Plucker.PointDir, args[1].copy(), args[2].copy())
 
 
-def expected(prm, meth):
-    """ground truth of a predicate: True / False / None (statement silent)"""
+def expected(prm, meth, ctor1):
+    """ground truth of a predicate: True / False / None (not judged: the statement is silent, or the relation holds
+    only up to the rounding of a harness-computed point, where a tolerance-based predicate may legitimately flip)"""
     rel, sign = prm['rel'], prm['sign']
     if meth in ('eq', 'ne'):
+        if rel == 'coincident' and sign == '+' and prm['shift'] == 's':
+            return None                       # second point P + d is on the line only up to rounding
         e = (rel == 'coincident' and sign == '+')
         return e if meth == 'eq' else not e
     if meth in ('or', 'isparallel'):
-        return rel in ('parallel', 'coincident')
+        return rel in ('parallel', 'coincident')      # direction vectors are bit-identical up to an exact factor
     if meth == 'xor':
         if rel == 'coincident':
             return None
-        return rel == 'intersecting'
+        if rel == 'intersecting':
+            # exact only when both lines are defined through the same float point
+            return True if (prm['off'] == '0' and ctor1 != 'Planes') else None
+        return False
     raise HarnessError(meth)
 
 
@@ -774,7 +780,7 @@ def fam_pairs(ctx, ld, L1):
                 site = SITE[meth]
                 p = dict(P0, method=meth, ord=o, **prm)
                 if meth in ('eq', 'ne', 'or', 'isparallel', 'xor'):
-                    e = expected(prm, meth)
+                    e = expected(prm, meth, ld.ctor)
                     p['expect'] = str(e)
                     f = {'eq': lambda: A == B, 'ne': lambda: A != B, 'or': lambda: A | B,
                          'isparallel': lambda: A.isparallel(B), 'xor': lambda: A ^ B}[meth]
